@@ -221,3 +221,22 @@ def snapshot_ok(machine, vertices):
     for v in vertices:
         machine[locations[0]] = v
     return machine
+
+
+def finallylost1(stack, fns):
+    try:
+        for f in fns:
+            f()
+    except Exception:
+        stack.pop()
+        raise
+    removed = stack.pop()
+    return removed
+
+
+def finallylost_ok(stack, fns):
+    try:
+        for f in fns:
+            f()
+    finally:
+        stack.pop()
